@@ -61,8 +61,8 @@ func (h *stdHarness) Step(ev *Event, step int) (Result, *Violation) {
 	}
 	res := h.w.Apply(ev)
 	if h.w.Panicked != "" {
-		if h.spec.ID == "C15" {
-			return res, &Violation{Property: "C15", OracleID: "c15.no_panic", Signature: panicSig(h.w.Panicked), Detail: h.w.Panicked, Step: step}
+		if h.spec.PanicIsViolation {
+			return res, &Violation{Property: h.spec.ID, OracleID: strings.ToLower(h.spec.ID) + ".no_panic", Signature: panicSig(h.w.Panicked), Detail: h.w.Panicked, Step: step}
 		}
 		return res, nil
 	}
@@ -111,6 +111,7 @@ type PropSpec struct {
 	Rule       string
 	Assume     []string
 	TweakCfg   func(r *Rng, cfg *Config) // property-specific knob overrides after the scenario draw
+	PanicIsViolation bool                 // an escaped panic in Begin/EndBlock or a packet callback is a violation of this property
 }
 
 var props = map[string]*PropSpec{}
@@ -373,7 +374,7 @@ func runWorker(spec *PropSpec, tier string, verifSeed uint64, from, to int, repl
 				key := out.Violation.Key()
 				ev := out.Events
 				orig := len(ev)
-				min := minimise(spec, out.Cfg, ev, key, time.Now().Add(100*time.Second))
+				min := minimise(spec, out.Cfg, ev, key, time.Now().Add(45*time.Second))
 				v2, _ := ReplayRun(spec, out.Cfg, min)
 				if v2 == nil || v2.Key() != key {
 					min = ev
@@ -383,9 +384,7 @@ func runWorker(spec *PropSpec, tier string, verifSeed uint64, from, to int, repl
 				wr.Violations = append(wr.Violations, path)
 				wr.VioLines = append(wr.VioLines, fmt.Sprintf("VIOLATION property=%s replay=%s", spec.ID, path))
 				fmt.Fprintf(os.Stderr, "violation %s [%s] %s: %s\n", spec.ID, v2.OracleID, v2.Signature, v2.Detail)
-				if len(wr.Violations) >= 3 {
-					break
-				}
+				break // one minimised violation per worker chunk is enough; the batch is failed anyway
 			}
 		}
 		if out.Nontrivial && out.Violation == nil {
